@@ -7,6 +7,9 @@ ids = [p["id"] for p in props]
 
 # id -> (engine, technique, level text, level note, design ref)
 CLAIMED = {
+ "C19": ("E-BACK", "proptest generation of raw deflate byte strings (valid for the window, single-fault, distances beyond the window, encoder output, mutated, noise) x window bits x input-callback slicing x output-callback abort; guard-paged window and input slices; reference decoder / construction as oracle",
+         "exploration: for every input no signal/abort, out() only ever sees regions inside the caller's window, canaries beside the window intact, callbacks bounded; for streams valid for the window and non-distance faults the bytes handed to out(), the status (STREAM_END / DATA_ERROR / BUF_ERROR with NULL or non-NULL next_in) and the unused input correspond to inflate's verdict",
+         "for streams with a too-far distance only safety and termination are claimed (inflateBack, like zlib's, does not promise an error for distances within the window but beyond the produced data)", "DESIGN.md 6 (C19)"),
  "C06": ("E-PROG (deflate), E-DEF", "proptest stateful generation (operation sequences with arbitrary integer arguments, shrunk as one value) + legal sessions; guard-page buffers, process isolation, status-domain and progress oracles",
          "exploration: generated programs over the whole deflate API (incl. hundreds of deflatePrime calls, resets, copies, big gzip header fields, 0/1-byte buffers) must not kill the worker, must return only statuses the zlib manual lists, and a Z_FINISH loop with fresh space must produce >= 1 byte per call and end; legal sessions (arbitrary deflateTune integers) must finish, and sessions that saw Z_BUF_ERROR must still round-trip",
          "documented preconditions are built in (valid pointers, deflatePrime on raw streams before the first deflate with bits <= 16); a hang inside one call is exit 2 (watchdog), not a violation", "DESIGN.md 6 (C06)"),
